@@ -1159,6 +1159,17 @@ expand_manifests(string &expr, bool expand_undefined,
 }
 
 /**
+ * The expression grammar can define types (e.g. "(struct s { ... })"), which
+ * need a scope to live in.  When no parser is active (preprocessing only),
+ * there is no global scope, so this one is used instead.
+ */
+static CPPScope *
+get_fallback_scope() {
+  static CPPScope *scope = new CPPScope(nullptr, CPPNameComponent(""), V_public);
+  return scope;
+}
+
+/**
  * Given a string, expand all manifests within the string and evaluate it as
  * an expression.  Returns NULL if the string is not a valid expression.
  *
@@ -1171,6 +1182,12 @@ parse_expr(const string &input_expr, CPPScope *current_scope,
   string expr = input_expr;
   expand_manifests(expr, false);
 
+  if (global_scope == nullptr) {
+    global_scope = get_fallback_scope();
+  }
+  if (current_scope == nullptr) {
+    current_scope = global_scope;
+  }
   CPPExpressionParser ep(current_scope, global_scope);
   ep._verbose = 0;
   if (ep.parse_expr(expr, *this)) {
@@ -1851,7 +1868,15 @@ handle_if_directive(const string &args, const YYLTYPE &loc) {
   expand_manifests(expr, true);
 
   int expression_result = 0;
-  CPPExpressionParser ep(current_scope, global_scope);
+  CPPScope *expr_global_scope = global_scope;
+  if (expr_global_scope == nullptr) {
+    expr_global_scope = get_fallback_scope();
+  }
+  CPPScope *expr_scope = current_scope;
+  if (expr_scope == nullptr) {
+    expr_scope = expr_global_scope;
+  }
+  CPPExpressionParser ep(expr_scope, expr_global_scope);
   ep._verbose = 0;
   if (ep.parse_expr(expr, *this)) {
     CPPExpression::Result result = ep._expr->evaluate();
